@@ -328,6 +328,8 @@ def run_case(case):
     elif sp == "geoms":
         g, h = case["g"], case["h"]
         G, H = mkgeom(g["type"], g["coordinates"]), mkgeom(h["type"], h["coordinates"])
+        if g == h:
+            H = G  # a geometry compared with itself is the very same object
         eg, eh = gm.extent(g["type"], g["coordinates"]), gm.extent(h["type"], h["coordinates"])
         if case["axis"] == "time":
             check_pair(out, have_temporal_overlap, G, H, (eg[0], eg[2]), (eh[0], eh[2]), thr(case, "abs"), thr(case, "rel"), "geometry_",
